@@ -595,5 +595,9 @@ fn _close_upvalues<T>(vm: &mut Vm<T>, top: *const Value) -> ExecutionResult {
 
 pub fn close_upvalues<T>(vm: &mut Vm<T>) -> ExecutionResult {
     let top = vm.runtime_data.value_stack.top_location();
-    _close_upvalues(vm, top)
+    _close_upvalues(vm, top)?;
+    // the instruction stands in for the `Pop` of a captured local at the end of its scope: the
+    // slot has to go, otherwise the next captured local of the same scope is never on top
+    vm.stack_pop();
+    Ok(())
 }
